@@ -9,10 +9,10 @@ pub fn prop() -> Prop {
     Prop {
         id: "C17",
         level: "model_checking",
-        rule: "streams of <=3 (thorough <=4) values over a 7-value core (incl. multi-line values and a multi-byte string) x 6 separator kinds (space, LF, CRLF, mixed run, touching, LF+indent), clean and with whitespace-delimited noise in one gap; deliveries: whole, 1-byte, greedy reads cut at EVERY set of <=2 offsets, Interrupted before every offset (singly and all at once), one file, FIFO with 3/7-byte writes; file partitions: EVERY composition of the value sequence into 1..4 files and EVERY cut inside the text (a value cut by a file boundary); --only-objects-and-arrays on/off; non-trivial = >=2 values or a cut inside a value; distinct by construction",
+        rule: "streams of <=3 (thorough <=4) values over a 7-value core (incl. multi-line values and a multi-byte string) x 6 separator kinds (space, LF, CRLF, mixed run, touching, LF+indent), clean and with whitespace-delimited noise in one gap; deliveries: whole, 1-byte, greedy reads cut at EVERY set of <=2 offsets, Interrupted before every offset (singly and all at once), one file, FIFO with 3/7-byte writes; file partitions: EVERY composition of the value sequence into 1..4 files and EVERY cut inside the text (a value cut by a file boundary); --only-objects-and-arrays on/off; plus 7 tokens (number, multi-byte string, literal, escapes, containers) placed so that they straddle byte 8192 and 16384 of the input at every split position, read byte by byte, from a file and in 1 KiB/4 KiB/8 KiB chunks; non-trivial = >=2 values or a cut inside a value; distinct by construction",
         explanation: "(a) every delivery must give the byte-identical observation; (b) out(f1..fn) = out(f1)...out(fn) with all per-file selectors; (c) the seven &-selectors are compared with a location model on the input text: &index ordinal of processed values, &index-in-file per file, &file-name the path, [start,end) as byte offsets must contain the value's span from the strict reference reader, consecutive ranges contiguous on clean streams, lines counted by LF only",
         assumptions: COMMON_ASSUMPTIONS.to_vec(),
-        guards: vec!["touching-values", "multi-line-value", "cut-inside-value", "greedy-chunking", "file-boundary-inside-value", "ooa-skips-scalar", "crlf", "fifo"],
+        guards: vec!["token-straddles-a-buffer-boundary", "touching-values", "multi-line-value", "cut-inside-value", "greedy-chunking", "file-boundary-inside-value", "ooa-skips-scalar", "crlf", "fifo"],
         budget_s: (100, 1800),
         single_worker: false,
         run,
@@ -213,6 +213,80 @@ fn run(ctx: &mut Ctx) {
         }
     }
     ctx.level_done("deliveries,partitions,context-model");
+
+    // ---- buffer boundaries: a token that straddles byte 8192 / 16384 of the input at every split position,
+    // read from stdin (one byte at a time), from a file (buffered reader), and in greedy chunks cut at the boundary
+    let tokens = ["1234567890", "\"h\u{e9}llo\u{20ac}\u{10348}xyz\"", "true", "\"\\u00e9\\n\\\"q\"", "{\"k\":[1,2]}", "-12.5e-3", "[[],{}]"];
+    for boundary in [8192usize, 16384] {
+        for tok in tokens {
+            if !ctx.mine() {
+                continue;
+            }
+            for k in 0..=tok.len() + 1 {
+                // the token starts at `boundary - k`
+                let start = boundary - k;
+                let mut text = String::new();
+                let mut n = 0usize;
+                while text.len() + 8 < start {
+                    text.push_str(&format!("{} ", n % 10));
+                    n += 1;
+                }
+                while text.len() < start {
+                    text.push(' ');
+                }
+                text.push_str(tok);
+                text.push_str("\n7 [8]\n");
+                let expected: Vec<V> = match json::parse_stream(text.as_bytes()) {
+                    Ok(v) => v.into_iter().map(|x| x.v).collect(),
+                    Err(_) => {
+                        ctx.machinery_error("boundary family: the reference reader rejects its own text".into());
+                        continue;
+                    }
+                };
+                let args: Vec<String> = vec!["--utf8-strings".into(), "--select=&index=i".into(), "--select=&started-at-char-number=sc".into(), "--select=&ended-at-char-number=ec".into(), "--select=.=v".into()];
+                let stdin_case = Case::owned(args.clone(), text.clone().into_bytes());
+                let base = ctx.run(&stdin_case);
+                ctx.case_done();
+                ctx.trace_validated();
+                ctx.nontrivial();
+                ctx.guard("token-straddles-a-buffer-boundary");
+                let sig = format!("token {:?} straddling byte {boundary}", crate::drive::trunc(tok, 12));
+                match rows_of(&base) {
+                    Ok(rows) if base.res.is_ok() => {
+                        let vals: Vec<V> = rows.iter().filter_map(|r| r.get("v").cloned()).collect();
+                        if vals != expected {
+                            ctx.violation("values-differ-from-the-reference-reader", &sig, &[stdin_case.clone()], format!("{} values, token {}", expected.len(), tok), format!("{} values; last rows {:?}", vals.len(), crate::drive::trunc(&String::from_utf8_lossy(&base.stdout[base.stdout.len().saturating_sub(200)..]), 200)));
+                        }
+                    }
+                    _ => {
+                        ctx.violation("run-failed", &sig, &[stdin_case.clone()], "Ok".into(), base.res.short());
+                        continue;
+                    }
+                }
+                let mut variants: Vec<(String, Case)> = Vec::new();
+                variants.push(("file".into(), Case { args: args.clone(), input: Input::Files(vec![("big.json".into(), text.clone().into_bytes())]), rplan: ReadPlan::default(), wplan: WritePlan::default() }));
+                for chunk in [boundary, 4096, 1024] {
+                    let mut c = Case::owned(args.clone(), text.clone().into_bytes());
+                    c.rplan = ReadPlan { greedy: true, cuts: (1..=text.len() / chunk).map(|i| i * chunk).collect(), ..ReadPlan::default() };
+                    variants.push((format!("greedy-{chunk}"), c));
+                }
+                let mut c = Case::owned(args.clone(), text.clone().into_bytes());
+                c.rplan = ReadPlan { greedy: true, cuts: vec![start + tok.len() / 2], interrupts: vec![start + 1, boundary], ..ReadPlan::default() };
+                variants.push(("greedy-cut-inside-token".into(), c));
+                for (name, c) in variants {
+                    let o = ctx.run(&c);
+                    ctx.case_done();
+                    if o.res != base.res || o.stdout != base.stdout {
+                        ctx.outcome("delivery-dependent");
+                        ctx.violation("delivery-changes-output", &format!("{sig} delivery {name}"), &[c.clone(), stdin_case.clone()], format!("as from stdin byte by byte: ...{:?}", crate::drive::trunc(&String::from_utf8_lossy(&base.stdout[base.stdout.len().saturating_sub(160)..]), 160)), format!("{} ...{:?}", o.res.short(), crate::drive::trunc(&String::from_utf8_lossy(&o.stdout[o.stdout.len().saturating_sub(160)..]), 160)));
+                    } else {
+                        ctx.outcome("delivery-ok");
+                    }
+                }
+            }
+        }
+    }
+    ctx.level_done("tokens-straddling-byte-8192-and-16384-at-every-split");
 }
 
 fn one_stream(ctx: &mut Ctx, st: &Stream, ooa: bool) {
